@@ -71,6 +71,18 @@ def classify(node, parent, grand) -> int:
     return 4
 
 
+def consumer_print(node, parent) -> str:
+    """what an order-preserving consumer of a set-valued NAME looks like: part of the site's digest, so that replacing e.g.
+    `sorted(s, key=injective)` by `map(f, s)` is a different site even though the assignment that binds `s` is unchanged"""
+    if isinstance(parent, (ast.For, ast.AsyncFor)):
+        return "For(" + ast.dump(parent.target) + ")"
+    if isinstance(parent, ast.comprehension):
+        return "comprehension(" + ast.dump(parent.target) + ")"
+    if isinstance(parent, ast.Call):
+        return ast.dump(parent)
+    return type(parent).__name__
+
+
 def scan(repo: Path, pkg: str = "cdd"):
     out = []
     trees = {}
@@ -88,7 +100,7 @@ def scan(repo: Path, pkg: str = "cdd"):
     def name_uses(ident, rel, scope_node):
         """contexts in which a name bound to a set is used: inside `scope_node` (a function) or, for module-level
         names, anywhere in non-test code (as a bare name or as the last attribute of a dotted reference)"""
-        worst, uses = 0, 0
+        worst, uses, consumers = 0, 0, []
         if scope_node is None:
             nodes = [n for t in trees.values() for n in ast.walk(t)]
         else:
@@ -104,7 +116,9 @@ def scan(repo: Path, pkg: str = "cdd"):
                 c = 4  # a second hop is not followed: treat as potentially iterated
             uses += 1
             worst = max(worst, c)
-        return worst, uses
+            if c == 4:
+                consumers.append(consumer_print(n, p))
+        return worst, uses, sorted(consumers)
 
     for rel, tree in trees.items():
         parents = all_parents
@@ -125,6 +139,7 @@ def scan(repo: Path, pkg: str = "cdd"):
                     continue  # not maximal
                 g = parents.get(p)
                 cls = classify(n, p, g)
+                consumers = []
                 if cls == 3 and isinstance(p, (ast.Assign, ast.AnnAssign)):
                     tgts = p.targets if isinstance(p, ast.Assign) else [p.target]
                     if len(tgts) == 1 and isinstance(tgts[0], ast.Name):
@@ -132,7 +147,7 @@ def scan(repo: Path, pkg: str = "cdd"):
                         while scope in parents and not isinstance(scope, (ast.FunctionDef, ast.AsyncFunctionDef)):
                             scope = parents[scope]
                         scope = scope if isinstance(scope, (ast.FunctionDef, ast.AsyncFunctionDef)) else None
-                        worst, uses = name_uses(tgts[0].id, rel, scope)
+                        worst, uses, consumers = name_uses(tgts[0].id, rel, scope)
                         cls = 4 if worst == 4 else (2 if uses else 0)
                 elif cls == 3 and isinstance(p, (ast.IfExp, ast.BoolOp)) and isinstance(g, (ast.Assign, ast.AnnAssign)):
                     tgts = g.targets if isinstance(g, ast.Assign) else [g.target]
@@ -141,10 +156,10 @@ def scan(repo: Path, pkg: str = "cdd"):
                         while scope in parents and not isinstance(scope, (ast.FunctionDef, ast.AsyncFunctionDef)):
                             scope = parents[scope]
                         scope = scope if isinstance(scope, (ast.FunctionDef, ast.AsyncFunctionDef)) else None
-                        worst, uses = name_uses(tgts[0].id, rel, scope)
+                        worst, uses, consumers = name_uses(tgts[0].id, rel, scope)
                         cls = 4 if worst == 4 else (2 if uses else 0)
                 out.append({"file": rel, "func": qual(n), "line": n.lineno, "cls": cls, "expr": ast.unparse(n)[:80],
-                            "digest": digest(rel, qual(n), ast.dump(p) if p is not None else ast.dump(n))})
+                            "digest": digest(rel, qual(n), (ast.dump(p) if p is not None else ast.dump(n)) + "".join("|" + c for c in consumers))})
     return out
 
 
